@@ -2194,6 +2194,9 @@ class _Simu(_IObserver, _params.Updatable, ABC):
 
     def Bc_Init(self) -> None:
         """Initializes Dirichlet, Neumann and Lagrange boundary conditions"""
+        if len(getattr(self, "_Simu__Bc_Lagrange", [])) > 0:
+            # the multipliers leave the system: its size changes
+            self.Need_Update()
         # DIRICHLET
         self.__Bc_Dirichlet: list[BoundaryCondition] = []
         """Dirichlet conditions list[BoundaryCondition]"""
@@ -3039,6 +3042,10 @@ class _Simu(_IObserver, _params.Updatable, ABC):
         )
 
         self.__Bc_Dirichlet.append(new_Bc)
+
+        if len(self.__Bc_Lagrange) > 0:
+            # with lagrange multipliers the system size follows the number of Dirichlet dofs
+            self.Need_Update()
 
         tic.Tac("Boundary Conditions", "Add Dirichlet condition", self._verbosity)
 
